@@ -486,11 +486,14 @@ class DictList(list):
         if isinstance(i, slice):
             # In this case, y needs to be a list. We will ensure all
             # the id's are unique
-            for obj in y:  # need to be setting to a list
+            y = list(y)  # need to be setting to a list
+            new_ids = set()
+            for obj in y:
                 self._check(obj.id)
-                # Insert a temporary placeholder so we catch the presence
-                # of a duplicate in the items being added
-                self._dict[obj.id] = None
+                # catch the presence of a duplicate in the items being added
+                if obj.id in new_ids:
+                    raise ValueError(f"id {str(obj.id)} is present twice")
+                new_ids.add(obj.id)
             list.__setitem__(self, i, y)
             self._generate_index()
             return
